@@ -38,3 +38,22 @@ def _(self, key):
 
 
 prop("C07", fucs=["liquer.store.ProxyStore.store", "liquer.store.ProxyStore.store_metadata", "liquer.store.ProxyStore.remove", "liquer.store.ProxyStore.makedir"])
+
+
+# ------------------------------------------------------------------ the indexing proxy
+classdef("liquer.store.IndexerStore", bases=["ProxyStore"], fields={})
+
+
+@contract("liquer.store.IndexerStore.store", params=dict(self=Ref("IndexerStore"), key=Str, data=Bytes, metadata=Meta),
+          opaque={"index": Meta, "get": Opaque("Any"), "to_root_key": Str})
+def _(self, key, data, metadata):
+    """whatever the indexer does to the metadata, the bytes go to the wrapped store unchanged, under the same key"""
+    requires(key != "" and not has(self._store.dirs, key), "target-is-not-a-directory")
+    modifies(self._store.dirs, self._store.data, self._store.meta)
+    ensures(self._store.data == mapset(old(self._store.data), key, data), "bytes-stored-in-the-wrapped-store-unchanged,others-untouched")
+    ensures(self._store.dirs == union(old(self._store.dirs), anc(parent_of(key))), "ancestors-become-directories")
+    ensures(mapdom(self._store.meta) == setadd(mapdom(old(self._store.meta)), key), "metadata-recorded")
+
+
+prop("C07", fucs=["liquer.store.IndexerStore.store"],
+     static=[("inherits", "IndexerStore", "ProxyStore", ["get_bytes", "get_metadata", "contains", "is_dir", "keys", "listdir", "store_metadata", "remove", "makedir"])])
